@@ -12,8 +12,9 @@
                               "use" and every other name -> ENOENT
      layernode.Create(name)   "use" -> LayerManager.use; always ENOENT
      refnode.Rmdir(name)      digest.Parse failure -> EINVAL; release: error -> EIO; when the returned count is 0 the
-                              layernode of that name and its children are removed [and, with C16-fix-3, the children of
-                              the other layernodes of the ref whose layer the manager no longer holds]; always ENOENT
+                              layernode of that name and its children are removed; always ENOENT.
+                              [with C16-fix-3: right after release, whatever it returned, every layernode of the ref whose
+                              layer the manager does not hold is removed with its children]
    State = manager state + the node tree:
      rnodes  refs that have a refnode;  lnodes (ref, toc) that have a layernode;
      fnodes  (ref, toc, kind, payload): children of layernodes; kind 0 diff, 1 blob, 2 info;
@@ -21,7 +22,7 @@
    [fvariant]: [FNoSweep] = store/fs.go as it was when C16-fix-2 was written (Rmdir removes only the nodes of the released
    directory), [FSweep] = with patches/C16-fix-3.diff (what the working tree contains). *)
 From Coq Require Import List Arith ZArith Bool.
-From SV Require Import Model.Store.
+From SV Require Export Model.Store.
 Import ListNotations.
 
 Inductive fkind := KDiff | KBlob | KInfo | KUse | KOther.
@@ -66,16 +67,18 @@ Definition ensure_l (f : fstate) (r t : nat) : fstate :=
 
 Definition add_f (f : fstate) (s : st) (r t k p : nat) : fstate := mkF s (rnodes f) (lnodes f) ((r, t, k, p) :: fnodes f).
 
-(* Rmdir with count 0: drop the directory (r,t) with its children; FSweep: also the children of every other
-   directory of r whose layer is not held by the manager any more *)
-Definition rm_dir (v : fvariant) (f : fstate) (r t : nat) : fstate :=
-  let ln := filter (fun e => negb (key2 r t (fst e) (snd e))) (lnodes f) in
-  let fn := filter (fun e => negb (key2 r t (fst (fst (fst e))) (snd (fst (fst e))))) (fnodes f) in
+(* Rmdir with count 0: drop the directory (r,t) with its children *)
+Definition rm_dir (f : fstate) (r t : nat) : fstate :=
+  mkF (mgr f) (rnodes f)
+      (filter (fun e => negb (key2 r t (fst e) (snd e))) (lnodes f))
+      (filter (fun e => negb (key2 r t (fst (fst (fst e))) (snd (fst (fst e))))) (fnodes f)).
+
+(* C16-fix-3: after release (whatever it returned) drop every layer directory of r whose layer the manager does not hold *)
+Definition held (f : fstate) (r : nat) (e : nat * nat) : bool := negb (Nat.eqb (fst e) r) || cached (mgr f) (fst e) (snd e).
+Definition sweep (v : fvariant) (f : fstate) (r : nat) : fstate :=
   match v with
-  | FNoSweep => mkF (mgr f) (rnodes f) ln fn
-  | FSweep =>
-      let held e := negb (Nat.eqb (fst e) r) || cached (mgr f) (fst e) (snd e) in
-      mkF (mgr f) (rnodes f) (filter held ln) (filter (fun e => held (fst (fst e))) fn)
+  | FNoSweep => f
+  | FSweep => mkF (mgr f) (rnodes f) (filter (held f r) (lnodes f)) (filter (fun e => held f r (fst (fst e))) (fnodes f))
   end.
 
 Definition fstep (v : fvariant) (w : world) (f : fstate) (o : fop) : fstate * errno :=
@@ -107,9 +110,9 @@ Definition fstep (v : fvariant) (w : world) (f : fstate) (o : fop) : fstate * er
   | FRmdir r t =>
       let f1 := ensure_l f r t in   (* the kernel looks the victim up before it sends RMDIR *)
       let '(s', x) := release Fixed (mgr f1) r t in
-      let f2 := set_mgr f1 s' in
+      let f2 := sweep v (set_mgr f1 s') r in
       match x with
-      | RCount c => ((if Z.eqb c 0 then rm_dir v f2 r t else f2), ENOENT)
+      | RCount c => ((if Z.eqb c 0 then rm_dir f2 r t else f2), ENOENT)
       | _ => (f2, EIO)
       end
   | FBadRef => (f, EINVAL)
@@ -148,9 +151,14 @@ Definition errno_of (f : fstate) (o : fop) (x : option res) : errno :=
   | FLookup r t k _ _ =>
       match k with
       | KUse | KOther => ENOENT
+      | KInfo => match x with
+                 | None => EOK                  (* served from the tree *)
+                 | Some RInfoEmpty | Some (RInfoFull _) => EOK
+                 | Some _ => EIO
+                 end
       | _ => match x with
              | None => EOK                      (* served from the tree *)
-             | Some ROk | Some RInfoEmpty | Some (RInfoFull _) => EOK
+             | Some ROk => EOK
              | Some _ => EIO
              end
       end
